@@ -42,7 +42,7 @@ struct Pre {
 /// arbitrary pending state satisfying the invariant: keys of the version map are pairwise different
 /// contents, responders of one version are pairwise different peers, no version has reached the quorum
 fn build_pre(d: &mut SwarmDriver, q: usize, n_senders: usize, target: Option<Record>, quorum: Quorum) -> (Pre, Vec<oneshot::Receiver<Msg>>) {
-    let n_versions = choice(3);
+    let n_versions = choice(1 + std::env::var("C05_MAXV").ok().and_then(|v| v.parse().ok()).unwrap_or(2usize));
     let mut versions = vec![];
     let mut result_map: GetRecordResultMap = HashMap::new();
     for v in 0..n_versions {
@@ -51,7 +51,8 @@ fn build_pre(d: &mut SwarmDriver, q: usize, n_senders: usize, target: Option<Rec
             let pc: &SymU<256> = pc;
             assume(pc.seq(c).not().0);
         }
-        let max_resp = 2.min(q.saturating_sub(1)).max(1);
+        let max_r: usize = std::env::var("C05_MAXR").ok().and_then(|v| v.parse().ok()).unwrap_or(2usize);
+        let max_resp = max_r.min(q.saturating_sub(1)).max(1);
         let n_resp = 1 + choice(max_resp);
         let mut peers: Vec<SymU<256>> = vec![];
         let mut set: HashSet<PeerId> = HashSet::new();
